@@ -1,9 +1,8 @@
 (* C01 / C02 / C14 for the PikeVM (nfa/pikevm.go, model: Pike.v) — statements only.
    For every NFA with wf_nfa A = true, every haystack and every offset.
-   PARTIAL: the leftmost-first END of SearchAt (equality of the whole span with
-   Nfa.find_at) is not proved; what is proved for SearchAt is the START (leftmost start
-   that has any accepting path, equal to the reference's start) and that the END is the end
-   of an accepting path from that start.  See the comment before `Section Top` of Pike.v. *)
+   The statements named `…_partial` here give the START of SearchAt (leftmost start with an
+   accepting path, equal to the reference's) and a valid END; the full statement (the whole
+   span equals Nfa.find_at's) is C14_pike_search_is_ref in Props_PikeSpan.v. *)
 From Coq Require Import List NArith.
 From CV Require Import Nfa NfaRef Backtrack Pike.
 Import ListNotations.
